@@ -75,6 +75,24 @@ Definition old_helper_name (r : role) (n : string) : string :=
   | _ => helper_name r n
   end.
 
+(** *** Converter objects have a history: one [Converter] instance may serve several
+    fields and several classes.  A naming function may therefore see state an earlier use
+    left in the object ([memo]).  The current code ignores it; a memoising variant
+    (documented as what is excluded) answers the name of the FIRST field it was asked for. *)
+Definition naming := option string -> string -> string * option string.
+
+Definition current_naming : naming := fun memo n => (helper_name RConverter n, memo).
+
+Definition memo_naming : naming := fun memo n =>
+  match memo with
+  | Some v => (v, Some v)
+  | None => (helper_name RConverter n, Some (helper_name RConverter n))
+  end.
+
+(** the state of the object after it was used for the fields [h] (of any classes), in order *)
+Definition use_history (nm : naming) (memo : option string) (h : list string) : option string :=
+  fold_left (fun m n => snd (nm m n)) h memo.
+
 Definition prefix_roles : list role := [RFactory; RConverter; RValidator; RField].
 
 Definition hits_prefix (s : string) : bool :=
